@@ -67,7 +67,12 @@ func pointFields(prog *load.Program) pointLayout {
 }
 
 func fieldSet() *models.Set {
-	return models.NewSet().Merge(models.Field()).Merge(models.Helpers()).Merge(models.Scalar())
+	s := models.NewSet().Merge(models.Field()).Merge(models.Helpers()).Merge(models.Scalar())
+	// unexported accessors without a specification of their own are analysed as written: converting an abstract element
+	// or scalar out of the Montgomery domain yields the limbs of its canonical representative
+	s.Merge(models.FiatOnAbstract(models.FiatSPkg, sym.Fn))
+	s.Merge(models.FiatOnAbstract(models.FiatFPkg, sym.Fp))
+	return s
 }
 
 // coordsOf returns the final coordinate terms of the point argument i.
